@@ -1108,6 +1108,7 @@ Proof.
     apply (wf_put w); [auto|eapply ext_trans; [exact S1|eapply ext_trans; eauto]|]. split.
     + unfold set_cell, traj_wf, buf_of in *. cbn [xb xp]. rewrite B6, A6, S2. auto.
     + unfold set_cell. ids_tac.
+  - (* reading the cell *) destruct (nth_error (trajs w) r0); inversion H; subst; auto.
 Qed.
 
 (* ------------------------------------------------------------------ histories: well-formedness *)
@@ -1505,6 +1506,7 @@ Proof.
     + cbn [trajs put]. rewrite (ext_trajs _ _ E). reflexivity.
     + eapply hext_trans; [apply ext_hext; exact E|apply hext_put].
     + unfold cache_ok, frames, buf_of in *. cbn [hx put set_cell xb xp tr]. rewrite B6, A6, S2. exact Hct.
+  - (* reading the cell *) destruct (nth_error (trajs w) r0); inversion H; subst; auto.
 Qed.
 
 Lemma init_cinv sps : cinv (init_world sps).
@@ -1719,6 +1721,7 @@ Proof.
     + cbn [trajs put]. rewrite (ext_trajs _ _ (ext_trans _ _ _ S1 (ext_trans _ _ _ A1 B1))). reflexivity.
     + unfold lengths_ok, set_cell, nframes in *. cbn [tm ul ua xp a_val]. rewrite A4, B4, !map_length, !seq_length.
       apply Nat.eqb_eq in Em. rewrite Em, Nat.eqb_refl, H1. reflexivity.
+  - (* reading the cell *) destruct (nth_error (trajs w) r0); inversion H; subst; auto.
 Qed.
 
 Lemma run_lens v ops : forall w, wf w -> lens w -> guarded xyz_guard v w ops = true -> lens (fst (run v w ops)).
